@@ -19,7 +19,7 @@ import tempfile
 import time
 
 REPO = "/repo"
-SKIP_FUNCS = {"write_FFD_file", "writeMesh", "plot3D", "view_mat", "plot_mesh", "write_tecplot"}  # file writers / plotting helpers
+SKIP_FUNCS = {"write_FFD_file", "writeMesh", "plot3D", "view_mat", "plot_mesh", "plot_meshes", "write_tecplot"}  # file writers / plotting helpers
 DERIV_FUNCS = {"compute_partials", "linearize", "solve_linear", "apply_linear", "compute_jacvec_product"}
 
 OPS = [
@@ -174,10 +174,10 @@ def one(mut, idx, amap, jobs, baseline):
         if not killed:
             # last stage: the model-level derivative / history checks, and the component derivative check (unrestricted) for helpers
             last = [p for p in ("C02", "C03") if p in props and p not in res and p not in stage2]
-            if "vector_algebra" in mut["file"] or mut["cls"] is None:
-                last = ["C01"] + last
+            if ("vector_algebra" in mut["file"] or mut["cls"] is None or mut["func"] == "setup") and "C01" not in res and "C01" not in stage2:
+                last = ["C01"] + last  # helpers used by several classes: unrestricted; constant partials declared in setup: class-restricted
             if last:
-                r3 = run_checks(wt, last, jobs, only_class=None)
+                r3 = run_checks(wt, last, jobs, only_class=(mut["cls"] if mut["func"] == "setup" and mut["cls"] else None))
                 stage2.update({k + ("" if k not in stage2 else "_full"): v for k, v in r3.items()})
                 killed = [p for p, r in r3.items() if r.get("exit") == 1]
         incon = [p for p, r in {**res, **stage2}.items() if r.get("exit") == 2]
